@@ -21,6 +21,7 @@ import (
 //	mode 0: error at call k only          mode 1: error at call k and every later call
 //	mode 2: short write (n = len-1, nil error) at call k only    mode 3: short from k on
 //	mode 4: nothing taken (n = 0, nil error) at call k only      mode 5: half taken (n = len/2, nil error) at call k only
+//	mode 6: everything taken AND an error returned at call k only
 type faultWriter struct {
 	k, mode int
 	calls   int
@@ -31,10 +32,10 @@ type faultWriter struct {
 	acc     []byte // octets accepted so far (keep only)
 }
 
-const c15Modes = 6
+const c15Modes = 7
 
 var c15ModeText = []string{"returned an error once", "returned an error from then on", "was short (n=len-1, nil error) once", "was short from then on",
-	"took nothing (n=0, nil error) once", "took half (n=len/2, nil error) once"}
+	"took nothing (n=0, nil error) once", "took half (n=len/2, nil error) once", "took everything and returned an error all the same, once"}
 
 var errInjected = errors.New("injected write failure")
 
@@ -50,6 +51,14 @@ func (w *faultWriter) Write(p []byte) (int, error) {
 	}
 	if w.mode <= 1 {
 		return 0, errInjected
+	}
+	if w.mode == 6 {
+		// the error comes with a full count (the data went out, the connection then failed)
+		w.bytes += len(p)
+		if w.keep {
+			w.acc = append(w.acc, p...)
+		}
+		return len(p), errInjected
 	}
 	n := len(p) - 1
 	switch w.mode {
